@@ -253,9 +253,11 @@ def build_mapset(case):
                     setattr(sm, attr, cls.from_dict(rows))
             maps.append(sm)
         ms.maps = maps
+    pre = None
     if case.get("rate") is not None:
+        pre = ms
         ms = ms.rate(float(F(case["rate"])))
-    return ms
+    return ms, pre
 
 
 def extract(ms):
@@ -354,12 +356,14 @@ def run(case, drv):
     tags = [case["origin"]] + ([case["style"], case["mode"]] if case["origin"] == "built" else []) + (["rate"] if case.get("rate") else [])
     detail = {}
     try:
-        ms = build_mapset(case)
+        ms, ms_pre = build_mapset(case)
     except Exception as e:
         # the source mapset could not be produced (e.g. a read error): not this property's subject
         return dict(claim="write", ok=True, agree=True, dom=False, kf=None, tags=tags + ["no-mapset"], nontrivial=False,
                     detail=dict(exc=repr(e)[:200]))
     content = extract(ms)
+    # the property's domain (#OFFSET = first tempo point) is a condition on the mapset before a rate change
+    dom_src = extract(ms_pre) if ms_pre is not None else content
     try:
         text = ms.write()
         impl = ("ok", text)
@@ -372,8 +376,9 @@ def run(case, drv):
     why = []
     same_tempo = all(c["bpms"] == content["charts"][0]["bpms"] for c in content["charts"]) if content["charts"] else True
     first_off = content["charts"] and content["charts"][0]["bpms"] and F(content["charts"][0]["bpms"][0][0])
+    src_first = dom_src["charts"] and dom_src["charts"][0]["bpms"] and F(dom_src["charts"][0]["bpms"][0][0])
     in_q = bool(content["charts"]) and same_tempo and content["charts"][0]["bpms"] != [] and \
-        close(F(content["hdr"]["offset"]), first_off) and all(c["chart_type"] in KEYED for c in content["charts"]) and \
+        close(F(dom_src["hdr"]["offset"]), src_first) and all(c["chart_type"] in KEYED for c in content["charts"]) and \
         all(F(n[2]) >= first_off - Fr(1, 2 ** 20) and 0 <= n[1] < KEYED[c["chart_type"]]
             for c in content["charts"] for n in c["notes"])
     if impl[0] == "err":
